@@ -80,6 +80,14 @@ class World:
             os.makedirs(os.path.join(self.top, self.package, "static"))
             open(os.path.join(self.top, self.package, "__init__.py"), "w").close()
             self.dir = os.path.join(self.top, self.package, "static")
+        self.symlink = bool(settings and settings.get("symlink"))
+        if self.symlink:
+            # the served directory is a link (current -> releases/N); a new version of the file arrives as a new release directory
+            # and the link is switched over (the usual atomic deployment)
+            self.release = 0
+            os.makedirs(os.path.join(self.top, "releases", "0"))
+            os.symlink(os.path.join("releases", "0"), os.path.join(self.top, "current"))
+            self.dir = os.path.join(self.top, "current")
         self.fname = (settings or {}).get("name", "x.html")
         self.path = os.path.join(self.dir, self.fname)
         self.vstat = VStat(self.dir)
@@ -98,6 +106,7 @@ class World:
         kw.pop("package", None)
         kw.pop("name", None)
         kw.pop("future", None)
+        kw.pop("symlink", None)
         chain = kw.pop("chain", False)
         self.chained = bool(chain)
         if chain:
@@ -127,6 +136,12 @@ class World:
         return (f"v{self.version:03d}-" + "x" * 64)[: self.size].encode()
 
     def _write(self, data=None):
+        if getattr(self, "symlink", False) and self.original is not None:
+            self.release += 1
+            os.makedirs(os.path.join(self.top, "releases", str(self.release)))
+            tmp = os.path.join(self.top, "current.new")
+            os.symlink(os.path.join("releases", str(self.release)), tmp)
+            os.replace(tmp, os.path.join(self.top, "current"))
         with open(self.path, "wb") as f:
             f.write(self.content() if data is None else data)
         self.vstat.table[os.path.realpath(self.path)] = (self.mtime, self.clock)
@@ -217,7 +232,7 @@ def validator_headers(form, v):
 VARIANTS = [(0.0, None, None), (0.6, None, None), (0.0, "America/New_York", None), (0.25, "Asia/Shanghai", None),
             (0.0, None, {"package": True}), (0.0, None, {"name": "app.3f2a9c1bdeadbeef.html"}), (0.0, None, {"name": "lib-0123456789abcdef0123456789abcdef.min.html"}), (0.0, None, {"future": True}), (0.0, None, {"cacheability": "no-cache"}), (0.0, None, {"cacheability": "private", "max_age": 0}), (0.0, None, {"cacheability": "no-store", "max_age": 1}),
             # an overlay directory in front (the file lives in the fallback app); names whose media type cannot be guessed
-            (0.0, None, {"chain": True}), (0.0, None, {"name": "LICENSE"}), (0.6, None, {"name": "data.bin"})]
+            (0.0, None, {"chain": True}), (0.0, None, {"name": "LICENSE"}), (0.6, None, {"name": "data.bin"}), (0.0, None, {"symlink": True})]
 
 
 def run_history(hist, r, collect_only=False, variant=0):
